@@ -199,5 +199,45 @@ def to_ops(events, rq_json):
     return _l(out), len(out), hist
 
 
+def perturbations(events, rng):
+    """corrupted copies of a trace: each must be rejected by the grammar or by the replay"""
+    import copy
+    out = []
+    idx = lambda pred: [i for i, e in enumerate(events) if pred(e)]
+    # (the id of an `alias` is an input of the operation -- what the expression lowered to -- and cannot be cross-checked;
+    #  the id of a `cached` declare is the machine's own node_mapping entry)
+    decl = idx(lambda e: e.get("op") == "declare" and e["d"].get("how") == "cached")
+    if decl:
+        ev = copy.deepcopy(events)
+        ev[rng.choice(decl)]["d"]["cid"] += 1
+        out.append(("declare-cid+1", ev))
+    inst = idx(lambda e: e.get("op") == "instance" and e["d"].get("columns"))
+    if inst:
+        ev = copy.deepcopy(events)
+        ev[rng.choice(inst)]["d"]["columns"][-1][1] += 1
+        out.append(("instance-cid+1", ev))
+    red = idx(lambda e: e.get("op") == "redirect" and e["d"].get("pairs"))
+    if red:
+        ev = copy.deepcopy(events)
+        ev[rng.choice(red)]["d"]["pairs"].pop()
+        out.append(("redirect-pair-dropped", ev))
+    tab = idx(lambda e: e.get("op") in ("table", "inline_table", "reserve"))
+    if tab:
+        ev = copy.deepcopy(events)
+        ev[rng.choice(tab)]["d"]["tid"] += 1
+        out.append(("tid+1", ev))
+    push = idx(lambda e: e.get("op") == "push" and "Select" in e["d"].get("transform", {}) and e["d"]["transform"]["Select"])
+    if push:
+        ev = copy.deepcopy(events)
+        ev[rng.choice(push)]["d"]["transform"]["Select"].pop()
+        out.append(("select-id-dropped", ev))
+    anyi = idx(lambda e: e.get("op") == "push" or (e.get("op") == "declare" and e["d"].get("how") == "new"))
+    if anyi:
+        ev = copy.deepcopy(events)
+        del ev[rng.choice(anyi)]
+        out.append(("event-dropped", ev))
+    return out
+
+
 COQ_HEADER = ("From Coq Require Import List NArith Bool.\nFrom PV Require Import Lib.ListX Model.Rq Model.RqWf Model.Lowerer Model.RqEq Model.LowererTrace.\n"
               "Import ListNotations.\nLocal Open Scope N_scope.\n")
